@@ -49,11 +49,13 @@ const (
 	FShort                 // a write stores only the first K bytes and reports an error
 	FCrashBefore           // the process stops before the operation
 	FCrashAfter            // the process stops right after the operation (its effect happened)
+	FErrno                 // the operation has no effect and reports Fault.Err (e.g. syscall.EINTR)
 )
 
 type Fault struct {
 	Kind FaultKind
 	K    int
+	Err  error // for FErrno
 }
 
 type crashSentinel struct{ proc int }
@@ -93,6 +95,9 @@ type Sched struct {
 	// Choices records, per step, (number of enabled tasks, index chosen): for DFS.
 	Choices [][2]int
 	// PendingOf lets a chooser look at what an enabled task is about to do.
+	// OnSched, when set, is called at every scheduling point (also the one at which a deadlock is
+	// detected) with the ids of the live tasks and of the enabled ones, before Choose.
+	OnSched func(s *Sched, alive, enabled []int)
 }
 
 var cur *Sched
@@ -169,19 +174,25 @@ func (s *Sched) Run() {
 	cur = s
 	defer func() { cur = old }()
 	for step := 0; ; step++ {
-		var en []int
+		var en, live []int
 		alive := 0
 		for _, t := range s.tasks {
 			if t.done || s.dead[t.proc] {
 				continue
 			}
 			alive++
+			if s.OnSched != nil {
+				live = append(live, t.id)
+			}
 			if t.enabled() {
 				en = append(en, t.id)
 			}
 		}
 		if alive == 0 {
 			return
+		}
+		if s.OnSched != nil {
+			s.OnSched(s, live, en)
 		}
 		if len(en) == 0 {
 			s.Deadlock = true
